@@ -441,6 +441,7 @@ class Interleaving(object):
         self.outq = queue.SimpleQueue()
         self.workers = {}
         self.state = {}
+        self.issued = {}
         for i, m in enumerate(modes):
             kws = MODE_KW[m]
             w = Worker(self, i + 1, kws[variant % len(kws)])
@@ -470,6 +471,7 @@ class Interleaving(object):
         if self.state[sid] != 'idle':
             raise MachineryError('step for session %d which is %s' % (sid, self.state[sid]))
         self.workers[sid].inbox.put(cmd)
+        self.issued[sid] = cmd
         r = self._wait(sid)
         if cmd['k'] in ('C', 'X') and r[0] == 'ok':
             self.state[sid] = 'ended'
@@ -480,8 +482,7 @@ class Interleaving(object):
             raise MachineryError('grant for session %d which is %s' % (sid, self.state[sid]))
         self.workers[sid].park.release()
         r = self._wait(sid)
-        if r[0] == 'blocked' and r[1] != 'pre_transaction_lock' and False:
-            pass
+        cmd = self.issued.get(sid) or cmd       # the operation that was issued when the session blocked
         if cmd is not None and cmd['k'] in ('C', 'X') and r[0] == 'ok':
             self.state[sid] = 'ended'
         return r
